@@ -44,6 +44,29 @@ CTORS = [
 ]
 
 
+def window_selections(L, ms, cpus=('accel',)):
+    """(constructor, cpu, windowed kernel, m, bound, limit) for every admitted parameter tuple whose selected kernel is
+    outside its window; also returns the number of instantiations. Shared with C07 (the window is the domain on which
+    the accelerated kernel computes the reference function)."""
+    out, n = [], 0
+    for cname, mk, pname, dom in CTORS:
+        if L.fn(cname) is None or pname is None:
+            continue
+        for cpu in cpus:
+            for m in ms:
+                for b in dom:
+                    c = Ctx(L, cpu=cpu, trusted=TRUSTED)
+                    st, ret, ev = c.run(cname, mk(m, b))
+                    n += 1
+                    if st != 'ok' or not isinstance(ret, Ptr):
+                        continue
+                    fn = ret.obj.fields.get(0)
+                    if fn and isinstance(fn[1], FnPtr) and fn[1].name in WINDOWS and pname == WINDOWS[fn[1].name][0]:
+                        if b > WINDOWS[fn[1].name][1]:
+                            out.append((cname, cpu, fn[1].name, m, b, WINDOWS[fn[1].name][1]))
+    return out, n
+
+
 def run(tier):
     R = Report('C14', tier)
     L = ctx.lib()
